@@ -448,7 +448,9 @@ def apply_regime(module, regime, seed):
                 if n.endswith("running_var"):
                     b.copy_(torch.rand(b.shape, generator=g, dtype=b.dtype) * 1.5 + 0.5)
                 elif n.endswith("running_mean"):
-                    b.copy_(torch.randn(b.shape, generator=g, dtype=b.dtype))
+                    # (+0.37: the input generator of a case may be seeded with the same number; x - running_mean == 0 exactly
+                    #  would put every feature on the kink of a following LeakyReLU)
+                    b.copy_(torch.randn(b.shape, generator=g, dtype=b.dtype) + 0.37)
                 elif n.split(".")[-1] == "temperature" and regime not in ("zero", "equal"):
                     b.copy_(torch.exp(torch.randn(b.shape, generator=g, dtype=b.dtype) * 0.5))
         if regime == "fresh":
